@@ -101,6 +101,8 @@ ORD = {'lt': lambda a, b: a < b, 'le': lambda a, b: a <= b, 'gt': lambda a, b: a
 
 
 def norm_axes(axis, rank):
+    if rank == 0:
+        return []            # shapeless: the code ignores the axis argument ("make a copy")
     if axis is None:
         return list(range(rank))
     if isinstance(axis, int):
@@ -108,49 +110,56 @@ def norm_axes(axis, rank):
     return sorted(a % rank for a in axis)
 
 
-def call(case):
-    """run the real code; returns the raw result"""
+def apply_op(case, a, b):
+    """apply one operation of the C14 catalogue to already-built real objects"""
     op = case['op']
     if op in ('tvl_and', 'tvl_or'):
-        a, b = bopd(case['a']), bopd(case['b'])
         return getattr(a, op)(b, builtins=case.get('builtins', False))
     if op == 'strict':
-        a, b = bopd(case['a']), bopd(case['b'])
         return STRICT[case['sym']](a, b)
     if op == 'not':
-        a = bopd(case['a'])
         return ~a if case.get('form') == 'invert' else a.logical_not()
     if op == 'red':
-        a = bopd(case['a'])
         ax = case['axis']
         ax = tuple(ax) if isinstance(ax, list) else ax
         return getattr(a, case['red'])(axis=ax, builtins=case.get('builtins', False))
     if op in ('eq', 'ne'):
-        a, b = nopd(case['a']), nopd(case['b'])
         return (a == b) if op == 'eq' else (a != b)
     if op == 'ord':
-        a, b = nopd(case['a']), nopd(case['b'])
         return ORD[case['sym']](a, b)
     if op == 'tvl_ord':
-        a, b = nopd(case['a']), nopd(case['b'])
         return getattr(a, 'tvl_' + case['sym'])(b, builtins=case.get('builtins', False))
     if op in ('tvl_eq', 'tvl_ne'):
-        a, b = nopd(case['a']), nopd(case['b'])
         return getattr(a, op)(b, builtins=case.get('builtins', False))
     if op == 'bool':
         src = case['src']
-        if src == 'plain':
-            return bool(bopd(case['a']))
-        a, b = nopd(case['a']), nopd(case['b'])
+        if src == 'plain': return bool(a)
         if src == 'eq': return bool(a == b)
         if src == 'ne': return bool(a != b)
         return bool(ORD[src](a, b))
     raise KeyError(op)
 
 
-def impl(case):
+BOOL_OPS = ('tvl_and', 'tvl_or', 'strict', 'not', 'red')
+
+
+def build(case, which):
+    o = case.get(which)
+    if o is None:
+        return None
+    if case['op'] in BOOL_OPS or (case['op'] == 'bool' and case['src'] == 'plain'):
+        return bopd(o)
+    return nopd(o)
+
+
+def call(case):
+    """run the real code; returns the raw result"""
+    return apply_op(case, build(case, 'a'), build(case, 'b'))
+
+
+def one_obs(case, thunk):
     try:
-        r = call(case)
+        r = thunk()
     except Exception as e:
         return C.exc_name(e)
     if case['op'] == 'bool':
@@ -158,6 +167,35 @@ def impl(case):
     if case['op'] in ('eq', 'ne') and isinstance(r, (bool, np.bool_)) and case.get('incompatible'):
         return 'incompatible'
     return obs(r)
+
+
+def seq_steps(case):
+    """the steps of a history as stand-alone cases (operands substituted)"""
+    res = []
+    for st in case['steps']:
+        c = dict(st)
+        c['a'] = case['opds'][st['a']]
+        if st.get('b') is not None:
+            c['b'] = case['opds'][st['b']]
+        if c['op'] in ('eq', 'ne', 'tvl_eq', 'tvl_ne'):
+            c['incompatible'] = np_bcast(c['a']['shape'], c['b']['shape']) is None
+        res.append(c)
+    return res
+
+
+def impl(case):
+    if case['op'] == 'seq':
+        # a history: the SAME operand objects are reused by every step (operands must stay usable: a
+        # comparison or logical operator may not disturb what later operations see)
+        mk_o = bopd if case['flavour'] == 'boolean' else nopd
+        objs = [mk_o(o) for o in case['opds']]
+        out = []
+        for st, c in zip(case['steps'], seq_steps(case)):
+            a = objs[st['a']]
+            b = objs[st['b']] if st.get('b') is not None else None
+            out.append(one_obs(c, lambda: apply_op(c, a, b)))
+        return out
+    return one_obs(case, lambda: call(case))
 
 
 # ------------------------------------------------------------------ direct oracle
@@ -247,6 +285,14 @@ def signature(case):
 
 
 def oracle(case):
+    if case['op'] == 'seq':
+        got = impl(case)
+        for k, (c, g) in enumerate(zip(seq_steps(case), got)):
+            exp = expect(c)
+            if exp is not None and C.sx(g) != C.sx(exp):
+                return ('history:' + signature(c), 'step %d (%s) of a history on shared operands: implementation returned '
+                        '%s, truth table says %s' % (k, c['op'], C.sx(g), C.sx(exp)))
+        return None
     exp = expect(case)
     if exp is None:
         return None
@@ -259,6 +305,11 @@ def oracle(case):
 # ------------------------------------------------------------------ requests for the model
 def request(case):
     op = case['op']
+    if op == 'seq':
+        subs = [request(c) for c in seq_steps(case)]
+        if any(r is None for r in subs):
+            return None
+        return ['c14', 'seq'] + [r[1:] for r in subs]
     if op in ('tvl_and', 'tvl_or'):
         return ['c14', op, b_sx(case['a']), b_sx(case['b'])]
     if op == 'strict':
@@ -325,6 +376,10 @@ def mk(case):
     case['req'] = request(case)
     a = case.get('a'); b = case.get('b')
     nt = False
+    if case['op'] == 'seq':
+        case['nontrivial'] = True
+        case['kind'] = 'history:' + case['flavour']
+        return case
     for o in (a, b):
         if o is not None and any(mask_bits(o['mask'], o['shape'])):
             nt = True
@@ -400,6 +455,29 @@ def gen_cases(rng, tier):
             oa, ob = rand_nopd(rng, sa, 'Vector', (2,)), rand_nopd(rng, sb, 'Vector', (3,))
             cases.append(mk({'op': 'eq', 'a': oa, 'b': ob, 'incompatible': True}))
             cases.append(mk({'op': 'ne', 'a': oa, 'b': ob, 'incompatible': True}))
+    # 4. histories: several operations on the same operand objects
+    for _ in range(3000 if thorough else 600):
+        flavour = rng.choice(['boolean', 'numeric'])
+        shp = rng.choice([[3], [2, 2], [2, 3], [1, 3], [4]])
+        shapes = [shp, shp, rng.choice([shp, [], shp[-1:]])]
+        if flavour == 'boolean':
+            opds = [rand_bopd(rng, sh) for sh in shapes]
+        else:
+            opds = [rand_nopd(rng, sh) for sh in shapes]
+        steps = []
+        for _k in range(rng.randint(4, 8)):
+            a, b = rng.randrange(3), rng.randrange(3)
+            if flavour == 'boolean':
+                st = rng.choice([{'op': 'tvl_and'}, {'op': 'tvl_or'}, {'op': 'strict', 'sym': rng.choice(list(STRICT))},
+                                 {'op': 'not', 'form': 'invert'},
+                                 {'op': 'red', 'red': rng.choice(['tvl_any', 'tvl_all', 'any', 'all']),
+                                  'axis': rng.choice([None, 0, -1])}])
+            else:
+                st = rng.choice([{'op': 'eq'}, {'op': 'ne'}, {'op': 'tvl_eq'}, {'op': 'tvl_ne'},
+                                 {'op': 'ord', 'sym': rng.choice(list(ORD))}, {'op': 'tvl_ord', 'sym': rng.choice(list(ORD))}])
+            st = dict(st, a=a, b=(None if st['op'] in ('not', 'red') else b))
+            steps.append(st)
+        cases.append(mk({'op': 'seq', 'flavour': flavour, 'opds': opds, 'steps': steps}))
     return cases
 
 
